@@ -193,13 +193,20 @@ H("ackfreq_sender_bookkeeping", ["C03"], "quick", "connection::ack_frequency::se
   "all durations < 2^16 us, all u64 packet numbers")
 
 # ------------------------------------------------------------------ congestion controllers (C12.a)
+H("bbr_new_window_native", ["C12"], "replay-only", "congestion::bbr::new_window_native",
+  [("initial_window", "u32"), ("mtu", "u16")], 4, [], ["Bbr::new", "Bbr::window"], "native replay body of E2 query e2_bbr_new_window_floor")
+H("controllers_new_window_floor", ["C12"], "quick", "congestion::new_reno::new_window_floor",
+  [("kind", "u8"), ("initial_window", "u64"), ("mtu", "u16")], 6,
+  ["NewReno", "Cubic"],
+  ["NewReno::new", "Cubic::new", "Controller::window"],
+  "every configured initial window below 2^62 and every initial MTU >= 1200, NewReno and Cubic (the base case the one-step obligations assume; Bbr::new: E2 query e2_bbr_new_window_floor)")
 H("newreno_step", ["C12"], "quick", "congestion::new_reno::step",
   [("window", "u64"), ("ssthresh", "u64"), ("bytes_acked", "u64"), ("mtu", "u16"), ("recovery_secs", "u32"), ("op", "u8"),
    ("now_secs", "u32"), ("sent_secs", "u32"), ("bytes", "u32"), ("app_limited", "bool"), ("persistent", "bool"), ("ecn", "bool"), ("new_mtu", "u16"), ("factor_q", "u8")], 6,
   ["on_ack", "on_congestion_event", "on_mtu_update", "on_spurious_congestion_event"],
   ["NewReno::on_ack", "NewReno::on_congestion_event", "NewReno::on_mtu_update", "NewReno::window", "NewReno::minimum_window"],
   "one event from every state with 2*mtu <= window < 2^62, every ssthresh: u64, mtu/new_mtu >= 1200, acked/lost bytes < 2^32, loss_reduction_factor in {0, .25, .5, .75, 1}",
-  assumes=["controller starts with window >= 2 * mtu (a configured initial_window below two datagrams of a large initial_mtu is outside the claim)"])
+  assumes=["controller starts with window >= 2 * mtu - the base case, decided by controllers_new_window_floor / e2_bbr_new_window_floor"])
 H("cubic_step", ["C12"], "quick", "congestion::cubic::step",
   [("window", "u64"), ("ssthresh", "u64"), ("cwnd_inc", "u64"), ("mtu", "u16"), ("has_rec", "bool"), ("recovery_secs", "u32"), ("w_max_q", "u32"),
    ("has_prior", "bool"), ("prior_window", "u64"), ("op", "u8"), ("now_secs", "u32"), ("sent_secs", "u32"), ("bytes", "u32"), ("persistent", "bool"), ("ecn", "bool"), ("new_mtu", "u16")], 6,
